@@ -1,11 +1,13 @@
 #!/bin/sh
 # MANIFEST.setup_cmd: build the framework from files on disk only (offline).
-set -e
+# Tolerant by design: every ./check rebuilds exactly what it needs (its Coq targets, its harness) and reports a
+# failure there, so one file that does not build here must not take the other checks down with it.
 cd "$(dirname "$0")/.."
 export GOFLAGS=-mod=mod GOPROXY=off
 unset GOSUMDB GOTOOLCHAIN
 python3 lib/mkproject.py
-( cd coq && timeout 3000 make -j16 )
-( cd harness && cp /repo/utils/go.sum go.sum 2>/dev/null || true; mkdir -p bin && for d in cmd/*/; do n=$(basename "$d"); go build -tags verif -o bin/$n ./cmd/$n; done )
-[ -d translator ] && ( cd translator && mkdir -p bin && for d in cmd/*/; do [ -d "$d" ] || continue; n=$(basename "$d"); go build -o bin/$n ./cmd/$n; done ) || true
+( cd coq && timeout 3000 make -k -j16 ) || echo "setup: some Coq files did not build (the owning check will report it)"
+( cd harness && { cp /repo/utils/go.sum go.sum 2>/dev/null || true; } && mkdir -p bin && for d in cmd/*/; do n=$(basename "$d"); go build -tags verif -o bin/$n ./cmd/$n || echo "setup: harness $n did not build"; done )
+for t in translator*; do [ -d "$t/cmd" ] && ( cd "$t" && mkdir -p bin && for d in cmd/*/; do [ -d "$d" ] || continue; n=$(basename "$d"); go build -o bin/$n ./cmd/$n || echo "setup: translator $n did not build"; done ); done
 echo setup done
+exit 0
